@@ -163,11 +163,11 @@ def make_box(rng, model, exp, res, adversarial=False):
         j = int(coarse[int(rng.integers(0, len(coarse)))])
         c = exp["pos"][j]
         axes = list(range(ndim))
-        size_mode = rng.choice(["quarter-finest", "finest"])
+        size_mode = rng.choice(["quarter-finest", "finest", "one-finest", "one-finest"])
     preds = []
     small = True
     for d in axes:
-        if size_mode == "quarter-finest":
+        if size_mode in ("quarter-finest", "one-finest"):
             w = 0.25 * 2 * h
         elif size_mode == "finest":
             w = 2 * h * float(rng.uniform(0.6, 1.2))
@@ -189,6 +189,9 @@ def make_box(rng, model, exp, res, adversarial=False):
         up = max(w * float(rng.uniform(0.3, 0.7)), need if side > 0 else 0.0) + 1e-6 * h
         dn = max(w - up, need if side < 0 else 0.0) + 1e-6 * h
         lo, hi = c[d] - dn, c[d] + up
+        if size_mode == "one-finest" and not is_finest:
+            # the leaf's centre at one end of the interval and exactly one finest-level centre (c +- h) inside it
+            lo, hi = (c[d] - 0.05 * h, c[d] + 1.02 * h) if side > 0 else (c[d] - 1.02 * h, c[d] + 0.05 * h)
         edge = rng.random() if not adversarial else 1.0
         if edge < 0.1:
             lo = 0.0 if rng.random() < 0.5 else -0.3
@@ -214,7 +217,7 @@ def _load(case, ctx, res):
         lowdim = False
     spec = make_spec(rng, lowdim)
     if adv:
-        spec.update(ncpu=int(rng.choice([8, 13, 24, 32])), levelmin=int(rng.choice([1, 1, 2])), nboundary=0, nxyz=[1, 1, 1],
+        spec.update(ncpu=int(rng.choice([8, 13, 24, 32, 32, 64])), levelmin=int(rng.choice([1, 2, 2, 3])), nboundary=0, nxyz=[1, 1, 1],
                     ordering="hilbert", bound_style=str(rng.choice(["octs", "equal", "tiny", "random"])),
                     style=str(rng.choice(["needle", "random"])), refine_prob=float(rng.uniform(0.1, 0.4)), max_octs=300)
         spec["levelmax"] = spec["levelmin"] + int(rng.integers(2, 4))
